@@ -154,30 +154,37 @@ pub fn lex(src: &str) -> Result<Lexed, LexError> {
             let st = i;
             i += 1;
             let bs = i;
+            // mirrors the most lenient mode of full_moon's tokenizer (5.2+/Luau): after ANY escape one raw line-break
+            // character is tolerated later in the string; being more lenient than the parser is harmless (every text is
+            // also parsed), being stricter would turn into false alarms
+            let mut escape = false;
+            let mut zesc = false;
             loop {
                 if i >= s.len() {
                     return Err(LexError("unclosed string".into(), st));
                 }
                 let d = s[i];
-                if d == b'\\' {
-                    // \z skips following whitespace including line breaks
-                    if s.get(i + 1) == Some(&b'z') {
-                        i += 2;
-                        while i < s.len() && matches!(s[i], b' ' | b'\t' | b'\n' | b'\r' | 0x0b | 0x0c) {
-                            i += 1;
-                        }
-                    } else if s.get(i + 1) == Some(&b'\r') && s.get(i + 2) == Some(&b'\n') {
-                        i += 3;
-                    } else {
-                        i += 2;
-                    }
+                if escape {
+                    escape = false;
+                    zesc = true;
+                    i += 1;
                     continue;
+                }
+                if d == b'\\' {
+                    escape = true;
+                    i += 1;
+                    continue;
+                }
+                if d == b'\n' || d == b'\r' {
+                    if zesc {
+                        zesc = false;
+                        i += 1;
+                        continue;
+                    }
+                    return Err(LexError("line break in string".into(), st));
                 }
                 if d == c {
                     break;
-                }
-                if d == b'\n' {
-                    return Err(LexError("line break in string".into(), st));
                 }
                 i += 1;
             }
